@@ -250,6 +250,21 @@ def observer_frame(u):
                 lazy = any(n in ast.walk(l) for l in ast.walk(b) if isinstance(l, ast.Lambda))
                 ok = lazy or src in ("StateData", "logger.info", "display.row")
                 u.ensure(ok, f"display_block_call:{src}", desc=f"the display block of Solver.solve eagerly calls {ast.unparse(n)[:70]} (a failure there would escape; only lazy entries are swallowed by StateData)")
+    # (a') the inner-display set-up of compute_step / display_step writes only the controller's display fields
+    for q in ("pygradflow.step.step_control.StepController.compute_step", "pygradflow.step.step_control.StepController.display_step"):
+        f = u.func(q)
+        blocks2 = [n for n in ast.walk(f.node) if isinstance(n, ast.If) and ast.unparse(n.test) == "display"] if q.endswith("compute_step") else [f.node]
+        u.ensure(len(blocks2) >= 1, f"display_block_found:{q.split('.')[-1]}")
+        for b in blocks2:
+            for n in ast.walk(b):
+                if isinstance(n, ast.Attribute) and isinstance(n.ctx, ast.Store):
+                    tgt = ast.unparse(n)
+                    u.ensure(tgt in ("self.res_func", "self.display"), f"inner_display_store:{q.split('.')[-1]}:{tgt}", desc=f"{q}: the display-only code stores to {tgt} (observer code may write only self.display / self.res_func)")
+        # every store to controller state in compute_step outside the display block is display state as well
+        if q.endswith("compute_step"):
+            for n in ast.walk(f.node):
+                if isinstance(n, ast.Attribute) and isinstance(n.ctx, ast.Store) and ast.unparse(n).startswith("self."):
+                    u.ensure(ast.unparse(n) in ("self.res_func", "self.display"), f"compute_step_store:{ast.unparse(n)}", desc=f"compute_step stores to {ast.unparse(n)}: the controller's algorithmic state is written by step() only")
     # (b) StateData swallows every failure of a lazy entry
     gi = u.func("pygradflow.display.StateData.__getitem__")
     tries = [n for n in ast.walk(gi.node) if isinstance(n, ast.Try)]
